@@ -283,6 +283,40 @@ def run(c):
         mid = [v for v in cfgs if v["valid"] and v["conns"]]
         if mid:
             c.sample(dict(kind="replayed configuration with expected deliveries", cfg=mid[len(mid) // 2]))
+    # 2b. connector type-pair table: per source signal s the four connectors k<s><d> that support EXACTLY one pair
+    #     (thorough: also n<s><d>, every pair but one), over two pipelines of s and one of each other signal.  Every
+    #     entry of the 4x4 table of connectorStability decides validity / routing of some configuration here.
+    #     Design invariants and generator in ONE run per universe, the four runs side by side.
+    from concurrent.futures import ThreadPoolExecutor
+    fams = [("k", 4, [])] if qk else [("k", 5, ["p1"]), ("n", 4, [])]
+    jobs = []
+    for fam, size, procs in fams:
+        for src, pipes in (("l", "PipesSrcL"), ("t", "PipesSrcT"), ("m", "PipesSrcM"), ("p", "PipesSrcP")):
+            jobs.append((pipes, ["r1"], procs, ["e1"], ["%s%s%s" % (fam, src, d) for d in "ltmp"], size))
+
+    def pair_run(u):
+        return c.tlc("PipelineGraph", "PipelineGraphGen", cfg_text=cfg_text(*u, MC_INVS + " Emit"), workers=1, timeout=1500,
+                     label="pairs_%s_%s" % (u[0], u[4][0][:2]), count=False, heap="3g")
+    with ThreadPoolExecutor(max_workers=4) as ex:
+        results = list(ex.map(pair_run, jobs))
+    pair_cfgs = []
+    for u, r in zip(jobs, results):
+        if not r.ok:
+            raise vlib.Inconclusive("pair-table universe %s failed: %s\n%s" % (u[4], r.error, (r.trace_text or r.out)[-1500:]))
+        c.states += r.distinct
+        c.transitions += r.generated
+        pair_cfgs += dedup(r.printed)
+    if not pair_cfgs:
+        raise vlib.Inconclusive("pair-table universes printed nothing")
+    used = {(cc["id"]) for v in pair_cfgs if v["valid"] for cc in v["conns"]}
+    want = {cid for u in jobs for cid in u[4]}
+    if used != want:
+        raise vlib.Inconclusive("vacuous: connectors never used in a valid configuration: %s" % sorted(want - used))
+    c.log("pair-table universes: %d configurations (%d valid), every one of %d single-entry connector tables used in a valid one"
+          % (len(pair_cfgs), sum(1 for v in pair_cfgs if v["valid"]), len(want)))
+    replay_configs(c, binp, pair_cfgs, "pairs")
+    total += len(pair_cfgs)
+    nontrivial += sum(1 for v in pair_cfgs if v["valid"] and v["conns"])
     c.exhaustive = True
 
     # 3. random larger configurations over all four signals (simulation of the same spec); half of the
@@ -292,7 +326,7 @@ def run(c):
     sims = [(c.seed, 4, 12, "GSpecValid"), (c.seed + 7, 20, 8, "GSpec")] if qk else \
            [(c.seed * 100 + i, 12 if i % 2 == 0 else 150, 12 + 2 * (i % 3), "GSpecValid" if i % 2 == 0 else "GSpec") for i in range(6)]
     for seed, num, depth, spec in sims:
-        u = ("Pipes8", ["r1", "r2", "r3"], ["p1", "p2", "p3"], ["e1", "e2", "e3"], ["ca1", "ca2", "cs1", "cl1", "cm1"], depth)
+        u = ("Pipes8", ["r1", "r2", "r3"], ["p1", "p2", "p3"], ["e1", "e2", "e3"], ["ca1", "cs1", "cl1", "cm1", "klt", "ktm", "kmp", "kpl", "ntl", "nlp", "nmm"], depth)
         r = c.tlc("PipelineGraph", "PipelineGraphGen", cfg_text=cfg_text(*u, "Emit", spec=spec), workers=1, timeout=900,
                   simulate="num=%d" % num, depth=depth + 1, seed=seed, label="sim%d" % seed, count=False, heap="8g")
         if r.error or r.timed_out:
